@@ -37,6 +37,11 @@ Definition empty_packet : packet := mkPacket empty_header [] 0.
 Definition profile_one_byte : Z := 48862.  (* 0xBEDE *)
 Definition profile_two_byte : Z := 4096.   (* 0x1000 *)
 
+(* extensionForm: the RFC 8285 two-byte form is announced by 0x100 followed by four application bits,
+   which a receiver ignores - all sixteen profiles 0x1000..0x100F mean the two-byte form (D31) *)
+Definition ext_form (profile : Z) : Z :=
+  if Z.land profile 65520 =? profile_two_byte then profile_two_byte else profile.
+
 (* ------------------------------------------------------------------ *)
 (* Header.Unmarshal                                                    *)
 
@@ -117,9 +122,9 @@ Definition header_unmarshal_into (prev : header) (buf : list Z) : res hdr_result
           let n4 := n + 4 in
           let ext_end := n4 + ext_len in
           if zlen le <? ext_len then Err EShort else
-          if (profile =? profile_one_byte) || (profile =? profile_two_byte) then
+          if (profile =? profile_one_byte) || (ext_form profile =? profile_two_byte) then
             ' (exts, offs, nf, rest) <-
-               parse_exts (S (length le)) (profile =? profile_two_byte) le n4 ext_end [] [] ;;
+               parse_exts (S (length le)) (ext_form profile =? profile_two_byte) le n4 ext_end [] [] ;;
             Ok (mkHdrResult (mk profile exts) nf offs rest)
           else
             Ok (mkHdrResult (mk profile [mkExt 0 (take ext_len le)]) ext_end [n4] (drop ext_len le))
@@ -158,7 +163,7 @@ Definition packet_unmarshal_into (prev : packet) (buf : list Z) : res pkt_result
 Definition ext_block_size (h : header) : Z :=
   if extension_profile h =? profile_one_byte then
     fold_left (fun s e => s + 1 + zlen (epayload e)) (extensions h) 4
-  else if extension_profile h =? profile_two_byte then
+  else if ext_form (extension_profile h) =? profile_two_byte then
     fold_left (fun s e => s + 2 + zlen (epayload e)) (extensions h) 4
   else
     match extensions h with
@@ -176,7 +181,7 @@ Definition ext_body (h : header) : res (list Z) :=
   if extension_profile h =? profile_one_byte then
     Ok (flat_map (fun e => Z.lor (u8 (Z.shiftl (eid e) 4)) (u8 (u8 (zlen (epayload e)) - 1)) :: epayload e)
                  (extensions h))
-  else if extension_profile h =? profile_two_byte then
+  else if ext_form (extension_profile h) =? profile_two_byte then
     Ok (flat_map (fun e => eid e :: u8 (zlen (epayload e)) :: epayload e) (extensions h))
   else
     match extensions h with
@@ -256,7 +261,7 @@ Definition set_extension (h : header) (id : Z) (v : list Z) : header * option er
       if extension_profile h =? profile_one_byte then
         if (id <? 1) || (14 <? id) then Some EIdRange
         else if (zlen v =? 0) || (16 <? zlen v) then Some ESize else None
-      else if extension_profile h =? profile_two_byte then
+      else if ext_form (extension_profile h) =? profile_two_byte then
         if id <? 1 then Some EIdRange
         else if 255 <? zlen v then Some ESize else None
       else
